@@ -386,6 +386,31 @@ def run(ctx, anchors=None):
                  "quiet is defined as a disjunction containing pipe_in and pipe_out",
                  "quiet is no longer forced on when stdin or stdout is not a terminal")
 
+    # ---- R08.6 "the script given on stdin" is all of stdin: a read into a fixed-size array whose content becomes the script must
+    # be repeated until end of input (a single fgets silently cuts the script at the buffer size and at the first newline)
+    ctx.rule("R08.6", "the script is read from stdin completely (no single fixed-size read)")
+    nrd = 0
+    for n in main.nodes():
+        if not (astq.is_call(n) and n.get("n") in ("fgets", "fread", "read", "getline") and any(x["k"] == "ref" and x.get("n") == "stdin" for a in n.get("args", []) if a for x in walk(a))):
+            continue
+        dst = n["args"][0] if n.get("args") else None
+        while dst is not None and dst.get("k") in ("cast", "paren"):
+            dst = dst["e"]
+        if dst is None or dst.get("k") != "ref":
+            continue
+        # does the array's content become the script (handed to strdup / parse_script / appended to a string)?
+        feeds = [m for m in main.nodes() if m["k"] in ("call", "mcall") and m.get("n") in ("strdup", "parse_script") and any(x["k"] == "ref" and x.get("d") == dst.get("d") for a in m.get("args", []) if a for x in walk(a))]
+        appended = [m for m in main.nodes() if m["k"] == "opcall" and m.get("op") in ("+=",) and any(x["k"] == "ref" and x.get("d") == dst.get("d") for a in m.get("args", [])[1:] if a for x in walk(a))]
+        if not feeds and not appended:
+            continue
+        nrd += 1
+        ctx.site()
+        looped = any(a.get("k") in ("while", "for", "do") for a in main.ancestors(n))
+        ctx.inst(looped, "R08.6", "stdin-read-to-the-end@%s" % main.name, main.loc(n), "the read from stdin is repeated until end of input",
+                 "%s reads the script with a single %s into a fixed-size array: a script text of more than %s characters (a 15-of-15 multisig already is) is cut and reported as invalid, "
+                 "and everything after the first newline is dropped" % (main.name, n.get("n"), astq.estr(n["args"][1]) if len(n.get("args", [])) > 1 else "?"))
+    ctx.floor("R08.6", nrd, 1, "reads of the script from stdin")
+
 
 def _enclosing_stmt(func, n):
     cur = n
@@ -413,6 +438,7 @@ def _region(main, ch):
 
 
 MUTANTS = [
+    dict(name="stdin-script-single-read", file="btcdeb.cpp", find="        while (fgets(buf, 1024, stdin)) input += buf;", replace="        if (fgets(buf, 1024, stdin)) input += buf;", expect=["R08.6:stdin-read-to-the-end"]),
     dict(name="verdict-from-done-flag", file="btcdeb.cpp", find="        if (!ContinueScript(*env)) {", replace="        ContinueScript(*env);\n        if (!instance.at_end()) {", expect=["R08.5:status-used:ContinueScript@main"]),
     dict(name="main-catches-too-little", file="btcdeb.cpp",
          find="} catch (const std::exception& ex) {\n    fprintf(stderr, \"error: exception thrown", replace="} catch (const std::bad_alloc& ex) {\n    fprintf(stderr, \"error: exception thrown",
